@@ -99,6 +99,71 @@ theorem nodup_buildEnzymatic (n : Int) (sites : List Int) (mc : Nat) (lo hi : Op
     (buildEnzymatic n sites mc lo hi).Nodup :=
   nodup_enzGo _ _ _ _ (ssorted_sortDedup _)
 
+/-! ## 2b. the grouped semi-span builders -/
+
+/-- the per-group loop of `_grouped_left_semi_span_builder`, on ANY group of strictly decreasing length
+(not only enzymatic ones): `x` is emitted from the parent `p` iff it keeps `p`'s start and value, is strictly
+shorter than `p`, has length in `[lo, hi]`, and is strictly longer than every shorter parent of the group —
+i.e. every left semi span is produced exactly from its next longer parent. This is where
+`new_min = max(min_len, next_len + 1)`, `new_max = min(max_len, len - 1)` and the `<=` break live. -/
+theorem mem_groupLoop_left (lo : Int) (hi : Option Int) (G : List Span)
+    (hG : G.Pairwise (fun a b => spanLen b < spanLen a)) (x : Span) :
+    x ∈ groupLoop buildLeftSemi false lo hi G ↔
+      ∃ p ∈ G, (x.1 = p.1 ∧ x.2.2 = p.2.2) ∧ lo ≤ spanLen x ∧ (∀ m, hi = some m → spanLen x ≤ m) ∧
+        0 ≤ spanLen x ∧ spanLen x < spanLen p ∧ ∀ q ∈ G, spanLen q < spanLen p → spanLen q < spanLen x := by
+  rw [mem_groupLoop buildSpec_left false lo hi G hG]
+  have : optLe (spanLen x) hi ↔ ∀ m, hi = some m → spanLen x ≤ m := by cases hi <;> simp [optLe]
+  simp only [this, ShL]
+
+/-- the same for `_grouped_right_semi_span_builder` (break condition `<`) -/
+theorem mem_groupLoop_right (lo : Int) (hi : Option Int) (G : List Span)
+    (hG : G.Pairwise (fun a b => spanLen b < spanLen a)) (x : Span) :
+    x ∈ groupLoop buildRightSemi true lo hi G ↔
+      ∃ p ∈ G, (x.2.1 = p.2.1 ∧ x.2.2 = p.2.2) ∧ lo ≤ spanLen x ∧ (∀ m, hi = some m → spanLen x ≤ m) ∧
+        0 ≤ spanLen x ∧ spanLen x < spanLen p ∧ ∀ q ∈ G, spanLen q < spanLen p → spanLen q < spanLen x := by
+  rw [mem_groupLoop buildSpec_right true lo hi G hG]
+  have : optLe (spanLen x) hi ↔ ∀ m, hi = some m → spanLen x ≤ m := by cases hi <;> simp [optLe]
+  simp only [this, ShR]
+
+example : [(0, 10, 1), (0, 5, 0)].Pairwise (fun a b : Span => spanLen b < spanLen a) ∧
+    groupLoop buildLeftSemi false 2 (some 8) [(0, 10, 1), (0, 5, 0)] =
+      [(0, 8, 1), (0, 7, 1), (0, 6, 1), (0, 4, 0), (0, 3, 0), (0, 2, 0)] := by decide
+
+/-- `_grouped_left_semi_span_builder` applied to the enzymatic span list (built with the same `min_len`
+and a `max_len` that drops no parent): exactly the spans whose start is a cleavage point, whose end is NOT
+one, with a cleavage point at or after the end reachable with at most `mc` missed cleavages; the value is
+the number of cleavage points strictly inside. No span is produced from two parents. -/
+theorem mem_groupedLeft_enzymatic (n : Int) (sites : List Int) (mc : Nat) (lo hi : Int) (hiE : Option Int)
+    (hlo : 1 ≤ lo) (hhi : ∀ a ∈ plus n sites, ∀ b ∈ plus n sites, b - a ≤ hiE.getD n) (x : Span) :
+    x ∈ groupedLeft (buildEnzymatic n sites mc (some lo) hiE) (some lo) (some hi) ↔
+      lo ≤ x.2.1 - x.1 ∧ x.2.1 - x.1 ≤ hi ∧ x.1 ∈ plus n sites ∧ x.2.1 ∉ plus n sites ∧
+        x.2.2 = (inside (plus n sites) x.1 x.2.1 : Int) ∧
+        ∃ e' ∈ plus n sites, x.2.1 ≤ e' ∧ inside (plus n sites) x.1 e' ≤ mc := by
+  obtain ⟨s, e, v⟩ := x
+  exact mem_groupedLeft_enz mc lo (hiE.getD n) hi (plus n sites) (ssorted_sortDedup _) hlo hhi s e v
+
+theorem mem_groupedRight_enzymatic (n : Int) (sites : List Int) (mc : Nat) (lo hi : Int) (hiE : Option Int)
+    (hlo : 1 ≤ lo) (hhi : ∀ a ∈ plus n sites, ∀ b ∈ plus n sites, b - a ≤ hiE.getD n) (x : Span) :
+    x ∈ groupedRight (buildEnzymatic n sites mc (some lo) hiE) (some lo) (some hi) ↔
+      lo ≤ x.2.1 - x.1 ∧ x.2.1 - x.1 ≤ hi ∧ x.2.1 ∈ plus n sites ∧ x.1 ∉ plus n sites ∧
+        x.2.2 = (inside (plus n sites) x.1 x.2.1 : Int) ∧
+        ∃ s' ∈ plus n sites, s' ≤ x.1 ∧ inside (plus n sites) s' x.2.1 ≤ mc := by
+  obtain ⟨s, e, v⟩ := x
+  exact mem_groupedRight_enz mc lo (hiE.getD n) hi (plus n sites) (ssorted_sortDedup _) hlo hhi s e v
+
+theorem nodup_groupedLeft_enzymatic (n : Int) (sites : List Int) (mc : Nat) (lo hi hiE lo' : Option Int) :
+    (groupedLeft (buildEnzymatic n sites mc lo hiE) lo' hi).Nodup :=
+  nodup_groupedLeft_enz mc _ _ hi _ (ssorted_sortDedup _) lo'
+
+theorem nodup_groupedRight_enzymatic (n : Int) (sites : List Int) (mc : Nat) (lo hi hiE lo' : Option Int) :
+    (groupedRight (buildEnzymatic n sites mc lo hiE) lo' hi).Nodup :=
+  nodup_groupedRight_enz mc _ _ hi _ (ssorted_sortDedup _) lo'
+
+/-- non-vacuity: the doctest of `_grouped_left_semi_span_builder` and a hypothesis instance -/
+example : groupedLeft (buildEnzymatic 5 [3] 1 (some 1) none) (some 1) (some 5) =
+      [(0, 4, 1), (0, 2, 0), (0, 1, 0), (3, 4, 0)] ∧
+    ∀ a ∈ plus 5 [3], ∀ b ∈ plus 5 [3], b - a ≤ (none : Option Int).getD 5 := by decide
+
 /-! ## 3. `build_spans` -/
 
 /-- the shortcut test of `build_spans` (`len(sorted(set(sites))) == max_index + 1`) recognises exactly
